@@ -264,8 +264,29 @@ def _child_main():
 
   def watchdog():
     # a main thread that deadlocked inside the signal handler never returns
-    while time.monotonic() - started < 14:
+    while time.monotonic() - started < 20:
       time.sleep(0.5)
+
+    def main_chain():
+      fr = sys._current_frames().get(threading.main_thread().ident)  # pylint: disable=protected-access
+      out = []
+      while fr is not None:
+        out.append((fr.f_code.co_name, fr.f_lineno))
+        fr = fr.f_back
+      return out
+
+    c1 = main_chain()
+    time.sleep(1.5)
+    c2 = main_chain()
+    if c1 != c2 or not c2 or c2[0][0] not in (
+        'wait', 'acquire', 'abort_from_sig_int', '_wait_for_tstate_lock',
+        'join', '__enter__'):
+      # still making progress: a slow machine, not a verdict
+      print('RESULT ' + json.dumps({
+          'sig': None, 'violations': [], 'evaluations': 0,
+          'counters': {'harness_errors': 1, 'sigint_child_slow': 1}}),
+            flush=True)
+      os._exit(0)
     frames = sys._current_frames()  # pylint: disable=protected-access
     main = frames.get(threading.main_thread().ident)
     chain = []
